@@ -17,9 +17,15 @@ def f_alg(cache, kind):
         alg = {"so3": L.so3, "se3": L.se3, "se23": L.se23}[kind]
         a = ca.SX.sym("a", alg.n_param)
         x = alg.elem(a); xm = alg.elem(-a)
-        return ca.Function("f", [a], [ca.densify(x.left_jacobian()), ca.densify(x.left_jacobian_inv()),
-                                      ca.densify(x.right_jacobian()), ca.densify(x.right_jacobian_inv()),
-                                      ca.densify(xm.left_jacobian())])
+        outs = [ca.densify(x.left_jacobian()), ca.densify(x.left_jacobian_inv()),
+                ca.densify(x.right_jacobian()), ca.densify(x.right_jacobian_inv()),
+                ca.densify(xm.left_jacobian())]
+        # a second element object of the same value on which the RIGHT variants are asked for first: what a method
+        # returns must not depend on which other method of the same object ran before it
+        y = alg.elem(a)
+        jr_y = ca.densify(y.right_jacobian()); jri_y = ca.densify(y.right_jacobian_inv())
+        outs += [ca.densify(y.left_jacobian()), ca.densify(y.left_jacobian_inv()), jr_y, jri_y]
+        return ca.Function("f", [a], outs)
     return cache.get(("alg", kind), mk)
 
 
@@ -38,6 +44,19 @@ def f_group(cache, rep):
 
 def hat(u):
     return np.array([[0, -u[2], u[1]], [u[2], 0, -u[0]], [-u[1], u[0], 0]], float)
+
+
+def call_alg(run, cache, kind, xi, tv):
+    """[Jl, Jli, Jr, Jri, Jl(-x)] of element x; the same four from a second object asked in the other order must agree"""
+    out = call(f_alg(cache, kind), xi)
+    for nm, a_, b_ in (("left_jacobian", out[0], out[5]), ("left_jacobian_inv", out[1], out[6]),
+                       ("right_jacobian", out[2], out[7]), ("right_jacobian_inv", out[3], out[8])):
+        with np.errstate(invalid="ignore"):
+            ok = np.array_equal(np.isnan(a_), np.isnan(b_)) and np.all(np.abs(np.nan_to_num(a_) - np.nan_to_num(b_)) <= 1e-12 * max(1.0, float(np.nanmax(np.abs(a_))) if np.any(np.isfinite(a_)) else 1.0))
+        if not ok:
+            run.violation(f"{kind}/{nm}/call_order", f"{nm} of an element differs depending on whether the right or the left variants of the same "
+                          "object were asked for first", {"tv": tv, "left_first": np.asarray(a_).tolist(), "right_first": np.asarray(b_).tolist()})
+    return out[:5]
 
 
 def call(f, *a):
@@ -59,7 +78,7 @@ def replay(run, cache, tv):
         Jr = V0 + mu * np.array(tv["NV1r"], float) / tv["N"]
         Jli = V0 + nu * np.array(tv["W1"], float) / (2 * tv["n"])
         Jri = V0 + nu * np.array(tv["W1r"], float) / (2 * tv["n"])
-        out = call(f_alg(cache, "so3"), nu * v)
+        out = call_alg(run, cache, "so3", nu * v, tv)
         for nm, got, want in (("left_jacobian", out[0], Jl), ("left_jacobian_inv", out[1], Jli),
                               ("right_jacobian", out[2], Jr), ("right_jacobian_inv", out[3], Jri)):
             cmp.vec(f"so3/{nm}/closed_form/{cell}", f"so(3) {nm} differs from the exact differential of exp", got, want, tv)
@@ -73,7 +92,7 @@ def replay(run, cache, tv):
         ad = np.array(tv["ad1"], float) + nu * np.array(tv["ad0"], float)
         AdE = rm_to_np(tv["AdE"]); AdEm = rm_to_np(tv["AdEm"])
         d = ad.shape[0]
-        Jl, Jli, Jr, Jri, Jlm = call(f_alg(cache, kind), xi)
+        Jl, Jli, Jr, Jri, Jlm = call_alg(run, cache, kind, xi, tv)
         ks = [xi, np.array(tv["k2"], float)] + ([np.array(tv["k3"], float)] if kind == "se23" else [])
         cmp.vec(f"{kind}/left_jacobian/dexp/{cell}", "J_l ad_xi != Ad_exp(xi) - I", Jl @ ad, AdE - I(d), tv)
         cmp.vec(f"{kind}/right_jacobian/dexp/{cell}", "J_r ad_xi != I - Ad_exp(-xi)", Jr @ ad, I(d) - AdEm, tv)
@@ -104,7 +123,7 @@ def replay(run, cache, tv):
             AdEm = np.block([[R.T, Z, -R.T @ hat(pp)], [Z, R.T, -R.T @ hat(pv)], [Z, Z, R.T]])
             ks = [xi, np.concatenate([v, np.zeros(6)]), np.concatenate([np.zeros(3), v, np.zeros(3)])]
         d = ad.shape[0]
-        Jl, Jli, Jr, Jri, Jlm = call(f_alg(cache, kind), xi)
+        Jl, Jli, Jr, Jri, Jlm = call_alg(run, cache, kind, xi, tv)
         # the dexp equations are scaled by 1/theta so that small angles are not hidden by the tolerance
         sc = 1.0 / max(th, 1e-3) if th < 1 else 1.0
         cmp.vec(f"{kind}/left_jacobian/dexp_gen/{cell}", "J_l ad_xi != Ad_exp(xi) - I", sc * (Jl @ ad), sc * (AdE - I(d)), tv)
@@ -118,7 +137,7 @@ def replay(run, cache, tv):
     elif op == "jac_zero":
         kind = tv["kind"]
         ad = np.array(tv["ad"], float); d = ad.shape[0]
-        Jl, Jli, Jr, Jri, Jlm = call(f_alg(cache, kind), np.array(tv["xi"], float))
+        Jl, Jli, Jr, Jri, Jlm = call_alg(run, cache, kind, np.array(tv["xi"], float), tv)
         cmp.vec(f"{kind}/left_jacobian/zero_rotation", "J_l != I + ad/2 at zero rotation", Jl, I(d) + ad / 2, tv)
         cmp.vec(f"{kind}/right_jacobian/zero_rotation", "J_r != I - ad/2 at zero rotation", Jr, I(d) - ad / 2, tv)
         cmp.vec(f"{kind}/left_jacobian_inv/zero_rotation", "J_l^-1 != I - ad/2 at zero rotation", Jli, I(d) - ad / 2, tv)
